@@ -461,4 +461,180 @@ theorem dictInsert_typed (s : Bool) (S : Schema) (fk fv : FieldD) (k v : Val)
       · simp only; rw [items_cons]; simp [h1.1, i2]
       · simp only; rw [items_cons]; simp [h2.1, i3]
 
+/-! ### the value a known, fitting record decodes to -/
+
+theorem wireFits_cases (f : FieldD) (wt : Nat) (h : wireFits f wt = true) :
+    (wt = 0 ∧ wireVarintTypes.contains f.ty = true)
+    ∨ ((wt = 5 ∨ wt = 1) ∧ isFixed f.ty = true)
+    ∨ (wt = 2 ∧ (f.ty = .string ∨ f.ty = .bytes ∨ f.ty = .message ∨ f.ty = .map))
+    ∨ (wt = 2 ∧ isPacked f.ty = true ∧ f.repeated = true) := by
+  unfold wireFits at h
+  cases ht : f.ty <;> rw [ht] at h <;>
+    simp [wireTypeByProtoType, wireLenDelim, isPacked, packedTypes] at h <;>
+    simp [wireVarintTypes, isFixed, fixedTypes, isPacked, packedTypes] <;> first | exact h | (rcases h with h | h <;> simp [h])
+
+theorem item_scalar (s : Bool) (S : Schema) (g : FieldD) (v : Val) (hg : g.ty ≠ .message)
+    (h : itemsTypedB s S g [v] = true) : scalarTypedB s g.ty v = true := by
+  cases v <;> simp [itemsTypedB, leafTypedB, elemTy_plain g hg, msgFieldB, hg] at h <;> exact h
+
+/-- what the nested loader is assumed to do (induction hypothesis on the fuel) -/
+def LoaderOk (s : Bool) (S : Schema) (rec : Loader) : Prop :=
+  ∀ (d : MsgD) (st : MState) (bs : Bytes) (st' : MState), WfD S d → (s = true → WfBytes bs) →
+    StTyped s S d st → rec d st bs = .ok st' → StTyped s S d st'
+
+/-- the decoded value fits what `storeValue` does with it: a chunk of list items, one map
+    entry, or one element -/
+def decodedOkB (s : Bool) (S : Schema) (f : FieldD) : Val → Bool
+  | .list vs => f.repeated && itemsTypedB s S f vs
+  | .dict ks vs => f.ty == .map && itemsTypedB s S (keyFieldOf f) ks && itemsTypedB s S (valFieldOf f) vs
+  | v => itemsTypedB s S f [v]
+
+theorem decoded_of_leaf (s : Bool) (S : Schema) (f : FieldD) (v : Val) (h : leafTypedB s f v = true) :
+    decodedOkB s S f v = true := by
+  cases v <;> simp [leafTypedB] at h <;> simp [decodedOkB, itemsTypedB, leafTypedB, h]
+
+theorem wfD_secNanos (S : Schema) : WfD S secNanosD := by
+  intro f hf
+  simp [secNanosD] at hf
+  rcases hf with rfl | rfl <;> simp [wfFieldB]
+
+theorem wfD_wrapper (S : Schema) (w : PType) (hw : isScalarTy w = true) : WfD S (wrapperD w) := by
+  intro f hf
+  simp [wrapperD] at hf
+  subst hf
+  unfold isScalarTy at hw
+  simp only [Bool.and_eq_true, bne_iff_ne, ne_eq] at hw
+  simp [wfFieldB, hw.1, hw.2]
+
+theorem entryD_fields (f : FieldD) : (entryD f).fields = [keyFieldOf f, valFieldOf f] := rfl
+
+theorem wfD_entry (S : Schema) (f : FieldD) (hw : wfFieldB S.length f = true) (ht : f.ty = .map) :
+    WfD S (entryD f) := by
+  obtain ⟨h1, h2, h3⟩ := wfField_map hw ht
+  unfold isScalarTy at h1
+  simp only [Bool.and_eq_true, bne_iff_ne, ne_eq] at h1
+  intro g hg
+  rw [entryD_fields] at hg
+  simp at hg
+  rcases hg with rfl | rfl
+  · simp [wfFieldB, keyFieldOf, h1.1, h1.2]
+  · by_cases hm : f.mapV = .message
+    · cases hk : f.mapVKind with
+      | user c => simp [wfFieldB, valFieldOf, hm, hk, h3 hm c hk]
+      | timestamp => simp [wfFieldB, valFieldOf, hm, hk]
+      | duration => simp [wfFieldB, valFieldOf, hm, hk]
+    · simp [wfFieldB, valFieldOf, hm, h2]
+
+theorem defaultOf_ne (S : Schema) (f : FieldD) (hn : noneOkB f = false) :
+    defaultOf S f ≠ .ph ∧ defaultOf S f ≠ .none := by
+  unfold noneOkB at hn
+  simp only [Bool.or_eq_false_iff] at hn
+  have hk := hn.2
+  unfold defaultOf
+  cases hd : f.defKind <;> simp [defaultOfKind, fresh] <;> simp [hd] at hk
+
+/-- the attribute read of a singular field whose default is not None yields an element -/
+theorem materialized_item (s : Bool) (S : Schema) (f : FieldD) (hw : wfFieldB S.length f = true)
+    (hs : singularB f = true) (hn : noneOkB f = false) (v : Val) (h : slotTypedB s S f v = true) :
+    itemsTypedB s S f [materialize S f v] = true := by
+  have ht := materialize_typed s S f hw v h
+  have hd := defaultOf_ne S f hn
+  apply slot_item s S f _ ht _ _ hs
+  · cases v <;> simp [materialize] <;> exact hd.1
+  · cases v <;> simp [materialize]
+    · exact hd.2
+    · rw [slotTypedB] at h; rw [h] at hn; simp at hn
+
+theorem postLen_typed (s : Bool) (S : Schema) (rec : Loader) (hrec : LoaderOk s S rec) (hS : WfSchemaT S)
+    (f : FieldD) (p : Bytes) (value : Val) (hw : wfFieldB S.length f = true)
+    (ht : f.ty = .string ∨ f.ty = .bytes ∨ f.ty = .message) (hb : s = true → WfBytes p)
+    (h : postLen S rec f p = .ok value) : itemsTypedB s S f [value] = true := by
+  unfold postLen at h
+  split at h
+  · rename_i hstr
+    have hstr' : f.ty = .string := by simpa using hstr
+    split at h
+    · rename_i hu
+      injection h with h; subst h
+      apply item_leaf
+      apply leaf_of_scalar s f .string _ (by rw [← hstr']; exact elemTy_plain f (by rw [hstr']; simp))
+      simp [scalarTypedB, hu]
+    · simp at h
+  · split at h
+    · rename_i hmsg
+      have hmsg' : f.ty = .message := by simpa using hmsg
+      split at h
+      · -- Timestamp
+        rename_i hk
+        cases hr : rec secNanosD (freshState secNanosD) p with
+        | error e => rw [hr] at h; simp at h
+        | ok st =>
+          rw [hr] at h; simp only [bind_ok] at h
+          split at h
+          · split at h
+            · rename_i hrange
+              injection h with h; subst h
+              apply item_leaf
+              cases s <;> simp [leafTypedB, hmsg', hk, tsRangeB, hrange.1, hrange.2]
+            · simp at h
+          · simp at h
+      · -- Duration
+        rename_i hk
+        cases hr : rec secNanosD (freshState secNanosD) p with
+        | error e => rw [hr] at h; simp at h
+        | ok st =>
+          rw [hr] at h; simp only [bind_ok] at h
+          split at h
+          · split at h
+            · rename_i hrange
+              injection h with h; subst h
+              apply item_leaf
+              cases s <;> simp [leafTypedB, hmsg', hk, durRangeB, hrange.1, hrange.2]
+            · simp at h
+          · simp at h
+      · -- wrapper
+        rename_i c w hk hwr
+        have hsc := wfField_wrap hw c w hmsg' hk hwr
+        cases hr : rec (wrapperD w) (freshState (wrapperD w)) p with
+        | error e => rw [hr] at h; simp at h
+        | ok st =>
+          rw [hr] at h; simp only [bind_ok] at h
+          injection h with h; subst h
+          have hst := hrec _ _ _ _ (wfD_wrapper S w hsc) hb (freshState_typed s S _) hr
+          have hslot := slotsTyped_getD s S _ _ 0 _ hst.2 (show (wrapperD w).fields[0]? = some _ from rfl)
+          have hwf := wfD_wrapper S w hsc _ (show (wrapperD w).fields[0]! ∈ (wrapperD w).fields by simp [wrapperD])
+          unfold isScalarTy at hsc
+          simp only [Bool.and_eq_true, bne_iff_ne, ne_eq] at hsc
+          have hitem := materialized_item s S ((wrapperD w).fields[0]!) hwf
+            (by simp [wrapperD, singularB, hsc.2])
+            (by simp [wrapperD, noneOkB, FieldD.defKind, hsc.1, hsc.2]; cases w <;> simp [scalarDef] at hsc ⊢)
+            _ hslot
+          -- transport from the wrapper's `value` field to the wrapper field itself
+          have he : elemTy f = some w := by simp [elemTy, hmsg', hk, hwr]
+          have hsv := item_scalar s S ((wrapperD w).fields[0]!) _ (by simp [wrapperD, hsc.1]) hitem
+          exact item_leaf s S f _ (leaf_of_scalar s f w _ he hsv)
+      · -- nested message
+        rename_i c hk hwr
+        split at h
+        · simp at h
+        · rename_i d hd
+          cases hr : rec d (freshState d) p with
+          | error e => rw [hr] at h; simp at h
+          | ok st =>
+            rw [hr] at h; simp only [bind_ok] at h
+            injection h with h; subst h
+            have hst := hrec _ _ _ _ (wfSchema_class S hS c d hd) hb (freshState_typed s S _) hr
+            rw [itemsTypedB, itemsTypedB]
+            simp [msgFieldB, hmsg', hk, hwr, hd, hst.1, hst.2]
+    · rename_i hns hnm
+      injection h with h; subst h
+      have hby : f.ty = .bytes := by
+        rcases ht with ht | ht | ht
+        · simp [ht] at hns
+        · exact ht
+        · simp [ht] at hnm
+      apply item_leaf
+      apply leaf_of_scalar s f .bytes _ (by rw [← hby]; exact elemTy_plain f (by rw [hby]; simp))
+      simp [scalarTypedB]
+
 end Bp
